@@ -404,6 +404,488 @@ def _on_seg(p, a, b) -> bool:
     return 0 <= dot <= ln
 
 
+# ----------------------------------------------------------------------
+# padded child tables: the -1 fill must be removed by value
+
+def _sentinel_tables(model, rep):
+    """A child index table is created filled with -1 and only partly
+    overwritten (cells with fewer children keep the fill).  Index sets read
+    from it must drop the fill *by value*; dropping 'the first element of
+    the sorted set' removes a genuine child whenever no fill was present."""
+    R5 = "C13-R5"
+    nsites = 0
+    for modn, q in ((TRI, "MeshTri1._adaptive_split_elements"),
+                    ("skfem.mesh.mesh_line_1", "MeshLine1._adaptive")):
+        fn = model.func(modn, q)
+        padded = {}
+        for st in walk_no_nested(fn.node):
+            if isinstance(st, ast.Assign) and len(st.targets) == 1 and \
+                    isinstance(st.targets[0], ast.Name):
+                v = st.value
+                fill = None
+                if isinstance(v, ast.BinOp) and isinstance(v.op, ast.Sub) \
+                        and isinstance(v.left, ast.Call) and src(
+                            v.left.func) == "np.zeros" and isinstance(
+                            v.right, ast.Constant):
+                    fill = -v.right.value
+                elif isinstance(v, ast.UnaryOp) and isinstance(
+                        v.op, ast.USub) and isinstance(v.operand, ast.Call) \
+                        and src(v.operand.func) == "np.ones":
+                    fill = -1
+                elif isinstance(v, ast.Call) and src(v.func) == "np.full" \
+                        and len(v.args) >= 2:
+                    try:
+                        fill = ast.literal_eval(v.args[1])
+                    except ValueError:
+                        fill = None
+                if fill is not None:
+                    padded[st.targets[0].id] = fill
+        comps = [n for n in ast.walk(fn.node) if isinstance(n, ast.DictComp)
+                 and any(isinstance(x, ast.Name) and x.id in padded
+                         for x in ast.walk(n.value))]
+        if not padded or not comps:
+            raise AnalysisError(f"{q}: padded child table / subdomain map "
+                                f"not found")
+
+        def cls(e):
+            """'clean' / 'padded' / ('positional', node)"""
+            if isinstance(e, ast.Name):
+                return "padded" if e.id in padded else "clean"
+            if isinstance(e, ast.Call):
+                f = src(e.func)
+                if f in ("np.setdiff1d",) and len(e.args) == 2:
+                    a = cls(e.args[0])
+                    if a == "padded":
+                        tab = [x.id for x in ast.walk(e.args[0])
+                               if isinstance(x, ast.Name) and x.id in padded]
+                        try:
+                            rem = ast.literal_eval(e.args[1])
+                        except ValueError:
+                            return "padded"
+                        rem = rem if isinstance(rem, (list, tuple)) else [rem]
+                        return "clean" if padded[tab[0]] in rem else "padded"
+                    return a
+                if f in ("np.unique", "np.sort", "np.asarray", "np.array",
+                         "np.ravel") and e.args:
+                    return cls(e.args[0])
+                if isinstance(e.func, ast.Attribute) and e.func.attr in (
+                        "astype", "flatten", "ravel", "copy"):
+                    return cls(e.func.value)
+                return "clean" if all(cls(a) == "clean" for a in e.args) \
+                    else "padded"
+            if isinstance(e, ast.Subscript):
+                b = cls(e.value)
+                if b != "padded":
+                    return b
+                if isinstance(e.value, ast.Name) and e.value.id in padded:
+                    return "padded"          # a read of the table
+                sl = e.slice
+                # value filter: X[X != fill] / X[X >= 0]
+                if isinstance(sl, ast.Compare) and len(sl.ops) == 1:
+                    try:
+                        c = ast.literal_eval(sl.comparators[0])
+                    except ValueError:
+                        c = None
+                    fills = set(padded.values())
+                    if (isinstance(sl.ops[0], ast.NotEq) and c in fills) or \
+                            (isinstance(sl.ops[0], ast.GtE) and c == 0
+                             and all(f < 0 for f in fills)) or \
+                            (isinstance(sl.ops[0], ast.Gt) and c == -1
+                             and fills == {-1}):
+                        return "clean"
+                    return "padded"
+                if isinstance(sl, ast.Slice):
+                    return ("positional", e)
+                return "padded"
+            return "clean"
+        for dc in comps:
+            nsites += 1
+            c = cls(dc.value)
+            cons = f"{q}:subdomain-map"
+            if c == "clean":
+                rep.ok(R5, cons, "the fill value of the child table is "
+                       "removed by value before the set becomes a subdomain")
+            elif isinstance(c, tuple):
+                rep.fail(R5, fn.path, q, cons,
+                         f"'{src(c[1])[:60]}' drops the fill value of the "
+                         f"child table by position: when every selected "
+                         f"cell has the maximal number of children there is "
+                         f"no fill in the set and the lowest-numbered "
+                         f"genuine child is dropped from the subdomain",
+                         dc.lineno)
+            else:
+                rep.fail(R5, fn.path, q, cons,
+                         f"the fill value {sorted(set(padded.values()))} of "
+                         f"the child table can reach the subdomain index "
+                         f"set: as an index it designates the last cell",
+                         dc.lineno)
+    if nsites < 2:
+        raise AnalysisError(f"{nsites} subdomain maps over padded child "
+                            f"tables, 2 expected")
+
+
+# ----------------------------------------------------------------------
+# one-dimensional adaptive refinement
+
+def _line(model, rep):
+    """Symbolic run of MeshLine1._adaptive: block structure of the new
+    connectivity (kept cells, left halves, right halves), midpoints, child
+    index table."""
+    R2, R3 = "C13-R2", "C13-R3"
+    LM = "skfem.mesh.mesh_line_1"
+    FL = "skfem/mesh/mesh_line_1.py"
+    cls = model.cls(LM, "MeshLine1")
+    fn = cls.methods.get("_adaptive")
+    if fn is None:
+        raise AnalysisError("MeshLine1._adaptive not found")
+    q = "MeshLine1._adaptive"
+    NM, NN, NP = Poly.sym("n[marked]"), Poly.sym("n[nonmarked]"), \
+        Poly.sym("npoints")
+
+    class Sel:
+        skv_isarray = True
+
+        def __init__(self, name, n):
+            self.name, self.n = name, n
+
+        def skv_len(self):
+            return self.n
+
+        def __repr__(self):
+            return self.name
+
+    class Ends:
+        """t[k, sel]: vertex k of the selected cells"""
+        skv_isarray = True
+
+        def __init__(self, k, sel):
+            self.k, self.sel = k, sel
+
+        def __repr__(self):
+            return f"vertex {self.k} of {self.sel}"
+
+    class Cells:
+        skv_isarray = True
+
+        def __init__(self, sel):
+            self.sel = sel
+
+    class NewPts:
+        skv_isarray = True
+
+        def __init__(self, sel, what):
+            self.sel, self.what = sel, what
+
+        def skv_getattr(self, name):
+            if name == "mean":
+                def mean(a, k, n):
+                    ax = a[0] if a else k.get("axis")
+                    return NewPts(self.sel, f"mean{ax}")
+                return PyFunc(mean)
+            raise Unsupported("points." + name)
+
+    class T:
+        skv_isarray = True
+
+        def skv_getitem(self, ix):
+            if isinstance(ix, tuple) and len(ix) == 2 and isinstance(
+                    ix[1], Sel):
+                if isinstance(ix[0], int):
+                    return Ends(ix[0], ix[1])
+                if ix[0] == slice(None):
+                    return Cells(ix[1])
+            raise Unsupported(f"t index {ix!r}")
+
+        def skv_getattr(self, name):
+            if name == "shape":
+                return (2, NM + NN)
+            raise Unsupported("t." + name)
+
+    class P:
+        skv_isarray = True
+
+        def skv_getitem(self, ix):
+            if isinstance(ix, tuple) and len(ix) == 2 and \
+                    ix[0] == slice(None) and isinstance(ix[1], Cells):
+                return NewPts(ix[1].sel, "verts")
+            raise Unsupported(f"p index {ix!r}")
+
+    class MidIdx(ARange):
+        pass
+
+    class Block:
+        skv_isarray = True
+
+        def __init__(self, rows, n):
+            self.rows, self.n = rows, n
+
+    cap: Dict[str, Any] = {}
+    marked = Sel("marked", NM)
+    the_p = P()
+
+    class Padded:
+        skv_isarray = True
+
+        def __init__(self, what):
+            self.what = what
+
+    class Rec(Recorder):
+        def skv_getitem(self, ix):
+            if isinstance(ix, tuple) and len(ix) == 2 and isinstance(
+                    ix[0], int) and isinstance(ix[1], Sel):
+                for (i, v) in reversed(self.captured.get("stores", [])):
+                    if isinstance(i, tuple) and i[0] == ix[0] and \
+                            i[1] is ix[1]:
+                        return v
+            return Padded(ix)
+
+    def hook(interp, name, args, kwargs, node):
+        if name == "numpy.max" and isinstance(args[0], T):
+            # validated meshes have no unused vertices: max(t) + 1 points
+            return NP - 1
+        if name == "numpy.setdiff1d":
+            a, b = args
+            if isinstance(a, ARange) and a.lo == Poly() and \
+                    a.hi == NM + NN and b is marked:
+                return Sel("nonmarked", NN)
+            return Padded(("setdiff", a, b))
+        if name == "numpy.unique":
+            return args[0]
+        if name == "numpy.arange":
+            a = [Poly.coerce(x) for x in args]
+            return ARange(a[0], a[1]) if len(a) == 2 else ARange(Poly(), a[0])
+        if name == "numpy.vstack":
+            rows = list(args[0])
+            n = None
+            for r in rows:
+                n = r.sel.n if isinstance(r, Ends) else (
+                    r.hi - r.lo if isinstance(r, ARange) else n)
+            return Block(rows, n)
+        if name == "numpy.hstack":
+            seq = list(args[0])
+            if seq and seq[0] is the_p:
+                cap["newp"] = seq
+                return ("points", seq)
+            cap["newt"] = seq
+            return ("cells", seq)
+        if name == "numpy.zeros":
+            r = Rec(cap)
+            cap["table_shape"] = args[0]
+            return r
+        return NotImplemented
+    obj = Obj(cls, {"doflocs": the_p, "t": T(), "_subdomains": {},
+                    "_boundaries": None})
+    it = Interp(model, call_hook=hook)
+    it.symbolic_range = lambda n: ARange(Poly(), n)
+
+    def repl(a, k, n):
+        cap["replace"] = k
+        return ("mesh", k)
+    it.overrides = dict(it.overrides)
+    try:
+        it.globals_override = None
+        env_hook = hook
+        # dataclasses.replace is an external call
+        old_ext = it.external
+
+        def ext(name, args, kwargs, node):
+            if name.endswith("replace"):
+                return repl(args, kwargs, node)
+            return old_ext(name, args, kwargs, node)
+        it.external = ext
+        it.call(fn, [marked], {}, self_obj=obj)
+    except (Unsupported, Raised) as e:
+        raise AnalysisError(f"{q} outside grammar: {e}")
+    newt, newp = cap.get("newt"), cap.get("newp")
+    if newt is None or newp is None or "replace" not in cap:
+        raise AnalysisError(f"{q}: new points / cells / replace not seen")
+    # points: old ones first, then the midpoints of the marked cells
+    okp = (len(newp) == 2 and isinstance(newp[1], NewPts)
+           and newp[1].sel is marked and newp[1].what == "mean1")
+    if okp:
+        rep.ok(R2, "line:new-points", "old points keep their indices; "
+               "point npoints+k is the mean of the two vertices of the k-th "
+               "marked cell")
+    else:
+        rep.fail(R2, FL, q, "line:new-points",
+                 "the appended points are not the midpoints (mean over the "
+                 "vertex axis) of the marked cells in marked order",
+                 fn.lineno)
+    # cells: describe every block as (left end, right end)
+    def end(v):
+        if isinstance(v, Ends):
+            return ("v", v.k, v.sel.name)
+        if isinstance(v, ARange):
+            if v.lo == NP and v.hi == NP + NM:
+                return ("mid", "marked")
+            return ("range", str(v.lo), str(v.hi))
+        return ("?", repr(v))
+    blocks = []
+    for b in newt:
+        if isinstance(b, Cells):
+            blocks.append((("v", 0, b.sel.name), ("v", 1, b.sel.name),
+                           b.sel.n))
+        elif isinstance(b, Block) and len(b.rows) == 2:
+            blocks.append((end(b.rows[0]), end(b.rows[1]), b.n))
+        else:
+            raise AnalysisError(f"{q}: block of the new connectivity")
+    kept = [i for i, b in enumerate(blocks)
+            if b[:2] == (("v", 0, "nonmarked"), ("v", 1, "nonmarked"))]
+    left = [i for i, b in enumerate(blocks)
+            if b[:2] == (("v", 0, "marked"), ("mid", "marked"))]
+    right = [i for i, b in enumerate(blocks)
+             if b[:2] == (("mid", "marked"), ("v", 1, "marked"))]
+    okc = len(blocks) == 3 and len(kept) == len(left) == len(right) == 1
+    if okc:
+        rep.ok(R2, "line:children", "unmarked cells kept; every marked cell "
+               "[a, b] replaced by [a, m] and [m, b] with m its midpoint: "
+               "same domain, no degenerate or overlapping cells")
+    else:
+        rep.fail(R2, FL, q, "line:children",
+                 f"the new connectivity consists of the blocks "
+                 f"{[b[:2] for b in blocks]}: expected the unmarked cells "
+                 f"and, per marked cell [a, b], the halves [a, m] and "
+                 f"[m, b]", fn.lineno)
+        return
+    # child table rows against block positions
+    start = []
+    acc = Poly()
+    for b in blocks:
+        start.append(acc)
+        acc = acc + b[2]
+    want = {(0, "nonmarked"): (start[kept[0]], NN),
+            (0, "marked"): None, (1, "marked"): None}
+    halves = sorted([left[0], right[0]])
+    stores = [(i, v) for i, v in cap.get("stores", [])
+              if isinstance(i, tuple) and isinstance(i[1], Sel)]
+    got = {}
+    for (r, sel), v in stores:
+        got[(r, sel.name)] = v
+    okt = set(got) == set(want)
+    detail = ""
+    if okt:
+        v = got[(0, "nonmarked")]
+        okt = isinstance(v, ARange) and v.lo == start[kept[0]] and \
+            v.hi == start[kept[0]] + NN
+        rows = [got[(0, "marked")], got[(1, "marked")]]
+        pos = sorted(str(start[h]) for h in halves)
+        if okt and all(isinstance(r, ARange) for r in rows):
+            los = sorted(str(r.lo) for r in rows)
+            okt = los == pos and all(r.hi - r.lo == NM for r in rows)
+            detail = f"rows start at {los}, blocks at {pos}"
+        else:
+            okt = False
+    if okt:
+        rep.ok(R3, "line:child-table", "row 0 of unmarked cells and rows "
+               "0/1 of marked cells hold the positions of their blocks in "
+               "the new connectivity")
+    else:
+        rep.fail(R3, FL, q, "line:child-table",
+                 f"the child index table does not list the positions of "
+                 f"the kept / left / right blocks ({detail or sorted(got)}"
+                 f"): named subdomains move to other cells", fn.lineno)
+
+
+# ----------------------------------------------------------------------
+# tetrahedral bisection: ancestors
+
+def _tet_ancestry(model, rep):
+    """Index-space typing of the ancestor array of MeshTet1._adaptive.
+    Two index spaces occur: ORIG (cells of the input mesh, which is what
+    named subdomains list) and CUR (columns of the growing work table t,
+    which is what ``marked`` lists inside the loop).  The array consulted
+    for the subdomain map must hold ORIG values only: initialised with the
+    identity on the input cells, and every later store copies entries of
+    the array itself, taken at the cells the new columns were split from."""
+    R5 = "C13-R5"
+    fn = model.func("skfem.mesh.mesh_tet_1", "MeshTet1._adaptive")
+    FTE = "skfem/mesh/mesh_tet_1.py"
+    q = "MeshTet1._adaptive"
+    # the array consulted by the subdomain map
+    anc = None
+    for n in ast.walk(fn.node):
+        if isinstance(n, ast.DictComp):
+            for c in ast.walk(n.value):
+                if isinstance(c, ast.Call) and src(c.func) in (
+                        "np.isin", "np.in1d") and c.args:
+                    a0 = c.args[0]
+                    while isinstance(a0, ast.Subscript):
+                        a0 = a0.value
+                    if isinstance(a0, ast.Name):
+                        anc = a0.id
+    if anc is None:
+        raise AnalysisError(f"{q}: ancestor array of the subdomain map not "
+                            f"found")
+    loops = [n for n in fn.node.body if isinstance(n, ast.While)]
+    if len(loops) != 1:
+        raise AnalysisError(f"{q}: one work-list loop expected")
+    lp = loops[0]
+    in_loop = {id(x) for x in ast.walk(lp)}
+    stores = [n for n in walk_no_nested(fn.node) if isinstance(n, ast.Assign)
+              and isinstance(n.targets[0], ast.Subscript)
+              and src(n.targets[0].value) == anc]
+    pre = [s_ for s_ in stores if id(s_) not in in_loop]
+    inl = [s_ for s_ in stores if id(s_) in in_loop]
+    # initial count of cells
+    nt0 = [n for n in fn.node.body if isinstance(n, ast.Assign)
+           and src(n.value) == "self.t.shape[1]"]
+    ntn = src(nt0[0].targets[0]) if nt0 else None
+    ok_init = (len(pre) == 1 and ntn is not None
+               and src(pre[0].targets[0].slice) == f":{ntn}"
+               and isinstance(pre[0].value, ast.Call)
+               and src(pre[0].value.func) == "np.arange"
+               and src(pre[0].value.args[0]) == ntn)
+    if ok_init:
+        rep.ok(R5, "tet:ancestors:init", f"{anc}[:{ntn}] = arange({ntn}): "
+               f"every input cell is its own ancestor")
+    else:
+        rep.fail(R5, FTE, q, "tet:ancestors:init",
+                 f"the ancestor array {anc} is not initialised with the "
+                 f"identity on the input cells", fn.lineno)
+    # the columns appended to t in the loop and the cells they come from
+    tstores = [n for n in ast.walk(lp) if isinstance(n, ast.Assign)
+               and isinstance(n.targets[0], ast.Subscript)
+               and src(n.targets[0].value) == "t"
+               and isinstance(n.targets[0].slice, ast.Tuple)]
+    appended = [src(n.targets[0].slice.elts[1]) for n in tstores
+                if isinstance(n.targets[0].slice.elts[1], ast.Slice)]
+    parents = [src(n.targets[0].slice.elts[1]) for n in tstores
+               if isinstance(n.targets[0].slice.elts[1], ast.Name)]
+    if len(appended) != 1 or len(set(parents)) != 1:
+        raise AnalysisError(f"{q}: stores of parent and child columns not "
+                            f"found")
+    app, par = appended[0], parents[0]
+    if len(inl) != 1:
+        rep.fail(R5, FTE, q, "tet:ancestors:inherit",
+                 f"{len(inl)} stores into {anc} inside the loop; the "
+                 f"appended columns t[:, {app}] need exactly one", lp.lineno)
+        return
+    st = inl[0]
+    slot = src(st.targets[0].slice)
+    val = st.value
+    ok_slot = slot == app
+    ok_val = (isinstance(val, ast.Subscript) and src(val.value) == anc
+              and src(val.slice) == par)
+    if ok_slot and ok_val:
+        rep.ok(R5, "tet:ancestors:inherit",
+               f"{anc}[{app}] = {anc}[{par}]: a new column inherits the "
+               f"ancestor (ORIG index) of the cell it was split from")
+    elif ok_slot and src(val) == par:
+        rep.fail(R5, FTE, q, "tet:ancestors:inherit",
+                 f"{anc}[{app}] = {par} stores work-table column numbers "
+                 f"(valid only for cells of the input mesh) where ancestors "
+                 f"in the input mesh are expected: a cell bisected in a "
+                 f"later pass of the closure loop hands its children a "
+                 f"number no subdomain lists, and they drop out of every "
+                 f"named subdomain", st.lineno)
+    else:
+        rep.fail(R5, FTE, q, "tet:ancestors:inherit",
+                 f"{anc}[{slot}] = {src(val)[:40]}: expected "
+                 f"{anc}[{app}] = {anc}[{par}] (slots of the appended "
+                 f"columns, ancestors of the cells they were split from)",
+                 st.lineno)
+
+
 def run(model: Model, rep, tier: str) -> None:
     rep.rule("C13-R1", "template masks disjoint and exhaustive over the "
              "patterns the closure invariant allows; closure loop "
@@ -414,7 +896,13 @@ def run(model: Model, rep, tier: str) -> None:
              "order of the new connectivity")
     rep.rule("C13-R4", "every _adaptive sets or provably keeps both tag "
              "fields")
+    rep.rule("C13-R5", "fill values of padded child tables are removed by "
+             "value before index sets become subdomains; ancestors of "
+             "bisected tetrahedra are inherited")
     _templates(model, rep)
+    _line(model, rep)
+    _sentinel_tables(model, rep)
+    _tet_ancestry(model, rep)
     n = tag_rule(model, rep, "C13-R4",
                  only=lambda f: f.name.startswith("_adaptive"))
     if n < 3:
@@ -427,7 +915,31 @@ def run(model: Model, rep, tier: str) -> None:
 _TR = FT
 _LI = "skfem/mesh/mesh_line_1.py"
 _TE = "skfem/mesh/mesh_tet_1.py"
+_SETD = "np.setdiff1d(np.unique(new_t[:, ixs]), [-1])"
 MUTANTS = [
+    ("tet children record the split cell instead of its ancestor",
+     (_TE, "            parent[nt:(nt + nm)] = parent[marked]",
+      "            parent[nt:(nt + nm)] = marked"), "C13-R5"),
+    ("triangle subdomain map drops the fill by position",
+     (_TR, _SETD, "np.unique(new_t[:, ixs])[1:]"), "C13-R5"),
+    ("line subdomain map drops the fill by position",
+     (_LI, _SETD, "np.unique(new_t[:, ixs])[1:]"), "C13-R5"),
+    ("line subdomain map keeps the fill",
+     (_LI, _SETD, "np.unique(new_t[:, ixs])"), "C13-R5"),
+    ("line: right halves numbered like the left halves",
+     (_LI, "            new_t[1, marked] = new_t[0, marked] + len(marked)",
+      "            new_t[1, marked] = new_t[0, marked]"), "C13-R3"),
+    ("line: left half starts at the right vertex",
+     (_LI, "        newt = np.vstack((t[0, marked], mid))",
+      "        newt = np.vstack((t[1, marked], mid))"), "C13-R2"),
+    ("line: new points averaged over the wrong axis",
+     (_LI, "p[:, t[:, marked]].mean(1)", "p[:, t[:, marked]].mean(0)"),
+     "C13-R2"),
+    ("line: unmarked cells numbered after the halves",
+     (_LI, "            new_t[0, nonmarked] = np.arange(len(nonmarked), "
+      "dtype=np.int32)",
+      "            new_t[0, nonmarked] = np.arange(len(nonmarked), "
+      "dtype=np.int32) + 2 * len(marked)"), "C13-R3"),
     ("blue1 mask also accepts an unmarked facet 1",
      (_TR, "        blue1 = (ix[0] == -1) * (ix[1] >= 0) * (ix[2] >= 0)",
       "        blue1 = (ix[0] == -1) * (ix[2] >= 0)"), "C13-R1"),
@@ -491,6 +1003,9 @@ MUTANTS = [
       "            t=t[:, :nt],\n"), "C13-R4"),
 ]
 TWINS = [
+    ("line subdomain map filters the fill with a comparison",
+     (_LI, "                name: " + _SETD,
+      "                name: np.unique(new_t[:, ixs][new_t[:, ixs] != -1])")),
     ("mask written with the test for -1 as '< 0'",
      (_TR, "        rest = (ix[0] == -1) * (ix[1] == -1) * (ix[2] == -1)",
       "        rest = (ix[0] < 0) * (ix[1] < 0) * (ix[2] < 0)")),
